@@ -37,6 +37,19 @@ def run(ck):
                     if k <= 2:
                         fh.write(json.dumps({"s": list(b"x = " + qc + body)}) + "\n")
                         n += 1
+        # multi-line literals: both openers x bodies of up to 2 pieces x every run of 0..4 closing quote characters of either kind
+        # (closed, cut inside the closing delimiter, closed with the other quote, followed by more text)
+        tpieces = [b"a", b"\n", b"\\", "\u00e9".encode(), b"\xff", b" ", b"#"]
+        DQ3, SQ3 = b'"' * 3, b"'" * 3
+        for op3 in (DQ3, SQ3):
+            for k in range(0, 3):
+                for combo in itertools.product(tpieces, repeat=k):
+                    body = b"".join(combo)
+                    for nq in range(0, 5):
+                        for closer in itertools.product([b'"', b"'"], repeat=nq):
+                            for tail in (b"", b"\nx = 1"):
+                                fh.write(json.dumps({"s": list(b"x = " + op3 + body + b"".join(closer) + tail)}) + "\n")
+                                n += 1
         # longer inputs over a small alphabet of the interesting classes
         small = [b'"', b"'", b"\\", b"\n", b"a", b"0", b"x", b".", b"`", b"#", b" ", b"("]
         for row in genlex.gen_inputs(4 if q else 5, small):
@@ -58,7 +71,8 @@ def run(ck):
     ck.cov["rule"] = ("(a) every byte string up to length %d over %d byte classes (letters, digits, quotes, backslash, newline, brackets, "
                       "operators, a 2-byte rune, an invalid byte, NUL), up to length %d over Unicode blanks / digit / BOM / U+FFFD / 3- and 4-byte runes / "
                       "ASCII controls / truncated UTF-8 mixed with 10 ASCII classes, every quoted literal whose body has up to %d pieces over {escapes of "
-                      "every form, text, multi-byte text, invalid / truncated UTF-8, NUL, line break, the other quote} (closed and open), and up to length %d over the 12 most interesting ones is lexed by the "
+                      "every form, text, multi-byte text, invalid / truncated UTF-8, NUL, line break, the other quote} (closed and open), every multi-line literal with a body "
+                      "of up to 2 pieces followed by every run of 0..4 closing quote characters of either kind (cut anywhere inside the closing delimiter), and up to length %d over the 12 most interesting ones is lexed by the "
                       "real lexer and the item stream is validated by TLC against TraceLexer (cover, order, no overlap, only blanks "
                       "skipped, lexical class, bounded length, ends in EOF or one positioned ERROR). (b) the same texts, random token "
                       "sequences, random bytes, malformed numbers, unterminated forms, deep nesting and valid programs with one token "
